@@ -16,8 +16,9 @@ def _case(draw):
     pp = draw(st.sampled_from([1, 1, 2]))
     dp = draw(st.sampled_from([1, 2, 2, 3]))
     mp = draw(st.sampled_from([1, 1, 2]))
-    blocks = draw(st.sampled_from([1, 1, 2]))
-    T = draw(st.integers(1, 4))
+    # 11 blocks per stage: layer names '0.col' ... '10.col' (one name a suffix of another), more layers than ranks
+    blocks = draw(st.sampled_from([1, 1, 1, 2, 2, 11]))
+    T = draw(st.integers(1, 4)) if blocks < 11 else draw(st.integers(1, 2))
     return {'pipe': pp, 'data': dp, 'model': mp, 'blocks': blocks, 'h': draw(st.integers(1, 4)), 'f': mp * draw(st.integers(1, 2)),
             'bias': [[draw(st.booleans()), draw(st.booleans())] for _ in range(blocks)], 'seed': draw(st.integers(0, 9999)),
             'N': draw(st.integers(1, 3)), 'cap': draw(st.sampled_from([0, 25.0])), 'in_hook': draw(st.booleans()),
